@@ -373,3 +373,19 @@ func All() []string {
 	sort.Strings(l)
 	return l
 }
+
+// ViolationCount returns the number of violations recorded so far by this worker.
+func (c *Ctx) ViolationCount() int {
+	c.mu.Lock()
+	defer c.mu.Unlock()
+	return int(c.counts["violations_raw"])
+}
+
+// AmendLastViolation replaces the input text of the most recent violation (e.g. with the whole history).
+func (c *Ctx) AmendLastViolation(input string) {
+	c.mu.Lock()
+	defer c.mu.Unlock()
+	if n := len(c.viols); n > 0 {
+		c.viols[n-1].Input = input
+	}
+}
